@@ -1146,14 +1146,16 @@ def sift_second_layer(IA, sift_func=sift, sift_args=None):
     """
     IA = ensure_2d([IA], ['IA'], 'sift_second_layer')
 
-    if (sift_args is None) or ('max_imfs' not in sift_args):
-        max_imfs = IA.shape[1]
-    elif 'max_imfs' in sift_args:
-        max_imfs = sift_args['max_imfs']
+    if sift_args is None:
+        sift_args = {'max_imfs': IA.shape[1]}
+    elif 'max_imfs' not in sift_args:
+        # Don't work in place on the user's options
+        sift_args = dict(sift_args, max_imfs=IA.shape[1])
+    max_imfs = sift_args['max_imfs']
 
     imf2 = np.zeros((IA.shape[0], IA.shape[1], max_imfs))
 
-    for ii in range(max_imfs):
+    for ii in range(IA.shape[1]):
         tmp = sift_func(IA[:, ii], **sift_args)
         imf2[:, ii, :tmp.shape[1]] = tmp
 
